@@ -183,6 +183,16 @@ var rules = map[string]string{}
 
 func register(id, rule string, f checkFn) { checks[id] = f; rules[id] = rule }
 
+// registerExtra adds a further, independent exploration to a property's check (run before the main one,
+// with its own PRNG stream so that the main check's cases do not depend on it).
+var extras = map[string][]checkFn{}
+var extraRules = map[string][]string{}
+
+func registerExtra(id, rule string, f checkFn) {
+	extras[id] = append(extras[id], f)
+	extraRules[id] = append(extraRules[id], rule)
+}
+
 func runMain() {
 	if len(os.Args) < 6 {
 		fmt.Fprintln(os.Stderr, "usage: corr <prop> <tier> <seed> <driver> <out.json> [replay.json]")
@@ -205,6 +215,15 @@ func runMain() {
 		budget = 10 * time.Minute
 	}
 	ctx.Deadline = ctx.start.Add(budget)
+	if len(os.Args) < 7 { // not in replay mode
+		for i, x := range extras[prop] {
+			ctx.Res.Rule += " ALSO: " + extraRules[prop][i]
+			main := ctx.Rng
+			ctx.Rng = rand.New(rand.NewSource(seed + 7919*int64(i+1)))
+			x(ctx)
+			ctx.Rng = main
+		}
+	}
 	f(ctx)
 	ctx.Res.WallS = time.Since(ctx.start).Seconds()
 	sort.Strings(ctx.Res.Notes)
